@@ -784,7 +784,12 @@ func ExecutePlan(plan *Plan, p ExecuteParams) (result *Result) {
 
 	extErrs, executionFinishFn := handleExtensionsExecutionDidStart(&p)
 	if len(extErrs) != 0 {
-		return &Result{Errors: extErrs}
+		// The execution is abandoned because one extension's start hook
+		// failed: the extensions that were already told it started are
+		// handed the (error-only) result it ended with.
+		aborted := &Result{Errors: extErrs}
+		aborted.Errors = append(aborted.Errors, executionFinishFn(aborted)...)
+		return aborted
 	}
 	defer func() {
 		extErrs := executionFinishFn(result)
